@@ -519,6 +519,8 @@ def thread_jumps(body, adts, max_rounds=6, max_new=400):
                         env[pl['l']] = env[rv['op']['pl']['l']]
                     elif rv.get('k') == 'discr' and not rv['pl'].get('p') and rv['pl']['l'] in env and env[rv['pl']['l']][0] == 'variant':
                         env[pl['l']] = ('int', env[rv['pl']['l']][1])
+                    elif rv.get('k') == 'ref' and not rv['pl'].get('p') and rv['pl']['l'] in env and env[rv['pl']['l']][0] == 'variant':
+                        env[pl['l']] = env[rv['pl']['l']]       # `&x` of a value whose variant is known (only is_some()/is_none() look through it)
                     else:
                         c = _const_of(rv, adts, env) or _payload_of(rv, env)
                         if c is not None:
@@ -571,6 +573,17 @@ def thread_jumps(body, adts, max_rounds=6, max_new=400):
                             nv_ = (1 if v_ == 0 else 0) if last_ == 'ok' else (1 if v_ == 1 else 0)
                         if nv_ is not None:
                             env[t['dst']['l']] = ('variant', nv_)
+                            path.append(cur)
+                            cur = t['t']
+                            continue
+                        # x.is_some() / is_none() / is_ok() / is_err() of a known variant is a known bool
+                        bv_ = None
+                        if fn_.startswith('core::option::') and last_ in ('is_some', 'is_none'):
+                            bv_ = (v_ == 1) == (last_ == 'is_some')
+                        elif fn_.startswith('core::result::') and last_ in ('is_ok', 'is_err'):
+                            bv_ = (v_ == 0) == (last_ == 'is_ok')
+                        if bv_ is not None:
+                            env[t['dst']['l']] = ('int', 1 if bv_ else 0)
                             path.append(cur)
                             cur = t['t']
                             continue
